@@ -56,7 +56,8 @@ pub const OW_BUILDER: usize = 14;
 pub const OW_CONVERT: usize = 15;
 pub const OW_ZST: usize = 16;
 pub const OW_HANDLE_IN: usize = 17;
-pub const OW_N: usize = 18;
+pub const OW_COPY: usize = 18;
+pub const OW_N: usize = 19;
 
 /// What kind of object to allocate next: a fixed kind, or a parameterised family drawn per use.
 #[derive(Clone, Copy, Debug, PartialEq, Eq, serde::Serialize, serde::Deserialize)]
@@ -670,6 +671,38 @@ impl Gen {
                     let holders: Vec<Id> = v.acc.iter().filter(|i| v.sh.objs.get(i).is_some_and(|o| o.kind == Kind::SetHolder)).copied().collect();
                     let set = if !holders.is_empty() && self.rng.chance(1, 2) { SetRef::Holder(holders[self.rng.below(holders.len())]) } else { SetRef::Root };
                     return Some(Op::Probe { handle: h, set });
+                }
+                OW_COPY => {
+                    // an immutable slice born with its pointers (the copy path), then linked. One of
+                    // its children is usually brand new: nothing else keeps it alive or marks it
+                    let Some((holder, hk, ns)) = self.pick_strong_holder(v) else { continue };
+                    let n = 1 + self.rng.below(4);
+                    let mut next = v.sh.next_id;
+                    let mut children: Vec<Option<Id>> = vec![];
+                    let mut ops: Vec<Op> = vec![];
+                    for _ in 0..n {
+                        match self.rng.below(4) {
+                            0 => children.push(None),
+                            1 | 2 if !full => {
+                                let k = [Kind::Node, Kind::Leaf, Kind::Cell, Kind::Raw][self.rng.below(4)];
+                                ops.push(Op::Alloc { id: next, kind: k });
+                                children.push(Some(next));
+                                next += 1;
+                            }
+                            _ => children.push(self.pick_child(v)),
+                        }
+                    }
+                    let id = next;
+                    let header = self.rng.chance(1, 3);
+                    ops.push(Op::AllocCopy { id, children, header });
+                    let slot = self.rng.below(ns);
+                    let route = if holder == Holder::Root { Route::Default } else { self.route_for(hk, true) };
+                    ops.push(Op::Link { holder, slot: slot as u8, child: id, route, conv: Conv::None });
+                    let first = ops.remove(0);
+                    for o in ops {
+                        self.queue.push_back(o);
+                    }
+                    return Some(first);
                 }
                 OW_HANDLE_IN => {
                     // a handle cloned or dropped by client code *inside* a callback
